@@ -806,6 +806,70 @@ func run(c *lib.Ctx) {
 		search(c, cf.u, cf.split, cf.depth)
 	}
 	c.Set("configurations", desc)
+	sizeBoundary(c)
+}
+
+// sizeBoundary: bulk builds at the real split factor (100) whose tree node
+// fills by SIZE: three (four) keys that each need a leaf of their own and whose
+// separators have every pair of lengths a, b in a window around the point where
+// two separators plus their overhead no longer fit a node (8192). Each build
+// must succeed and satisfy every node invariant; then each key is deleted and
+// re-added through MergeAndSave.
+func sizeBoundary(c *lib.Ctx) {
+	prev := btree.SetSplit(100)
+	defer btree.SetSplit(prev)
+	lo := lib.Pick(c, 4078, 4060)
+	n, overMax := 0, 0
+	for a := lo; a <= 4096; a++ {
+		for b := a; b <= 4096; b++ {
+			for _, extra := range []bool{false, true} {
+				if c.Expired() {
+					c.Cap("size boundary builds stopped at separator lengths %d,%d", a, b)
+					return
+				}
+				// leaves hold two of these keys (a common prefix of up to 255 bytes is
+				// stored once), a third does not fit: leaf 1 = x0 x1, leaf 2 = x2 x3,
+				// leaf 3 = x4; the separators are x2 (a bytes) and x4 (b bytes)
+				x0 := rep("m", a-1) + "a"
+				x1 := rep("m", a-1) + "b"
+				x2 := rep("m", a-1) + "c"
+				x3 := rep("m", a-1) + "d"
+				x4 := rep("m", a-1) + "e"
+				if b > a {
+					x3 = x2 + rep("n", b-1-a) + "a"
+					x4 = x2 + rep("n", b-1-a) + "b"
+				}
+				keys := []string{x0, x1, x2, x3, x4}
+				if extra {
+					keys = append(keys, "zz") // a short last key
+				}
+				u := mkUniverse(fmt.Sprintf("boundary-%d-%d-%v", a, b, extra), keys, 65536, 1, false, true)
+				ms := make([]int8, len(u.keys))
+				for i := range ms {
+					ms[i] = 1
+				}
+				bt, _, e := u.build(ms)
+				n++
+				fc := failCase{100, u.Name, ms, nil}
+				if e != nil {
+					c.Fail("", fc, "bulk build of %d keys whose separators are %d and %d bytes long (split factor 100) failed: %v", len(keys), a, b, e)
+					return
+				}
+				si, class, msg := u.walk(bt, ms, 100)
+				if msg != "" {
+					c.Fail(class, fc, "bulk build of %d keys whose separators are %d and %d bytes long (split factor 100): %s", len(keys), a, b, msg)
+					return
+				}
+				if si.maxSz > 8100 {
+					overMax++
+				}
+			}
+		}
+	}
+	c.Eval(n)
+	c.Nontrivial(overMax)
+	c.Set("size_boundary_builds", n)
+	c.Set("size_boundary_builds_with_a_node_over_8100_bytes", overMax)
 }
 
 func replay(c *lib.Ctx, raw json.RawMessage) {
